@@ -114,6 +114,21 @@ def families(tier, seed):
     return fams
 
 
+def _twin_face_contact():
+    """mutant: two polyhedra in face contact (intersection is a polygon) are reported as disjoint"""
+    import sys as _sys
+    it = _sys.modules['Geometry3D.calc.intersection']
+    orig = it.inter_convexpolyhedron_convexpolyhedron
+
+    def f(a, b):
+        r = orig(a, b)
+        return None if isinstance(r, ConvexPolygon) else r
+    it.inter_convexpolyhedron_convexpolyhedron = f
+
+
+TWINS = {'face contact of two polyhedra -> None': (r'^Polyhedron-cube@axis/Polyhedron-cube@axis/base0,0,0/w1,0,0/', _twin_face_contact)}
+
+
 META = dict(
     title='convex x convex intersection is the exact convex set',
     level_text=('Bounded symbolic model checking of the real intersection() code for polygon/polygon (coplanar, parallel and crossing planes), '
